@@ -4,6 +4,7 @@ import numpy as np
 from .. import core, gen
 
 PROP_FILE = 'Knee/Props/C12.lean'
+PROP_FILES = ['Knee/Props/C12.lean', 'Knee/Props/C12S.lean']
 LINK = ['single', 'complete', 'centroid', 'average']
 MODES = ['left', 'linear', 'right', 'hull']
 RULE = ('valid curves (dyadic families) x interior knee subsets (>= 2 knees) x 4 linkages x thresholds x 4 ranking modes + the corner variant. '
@@ -251,14 +252,19 @@ def run(ctx):
     rng = ctx.rng
     quick = ctx.tier == 'quick'
     for _ in range(700 if quick else 15000):
-        n = rng.randrange(6, 60)
+        n = rng.randrange(6, 60) if rng.random() < 0.9 else rng.randrange(4, 6)
         pts, fam = gen.dyadic_curve(rng, n, scale_exp=0)
         pts, vt = gen.magnitude(rng, pts, 0.2, ('xytiny30', 'xtiny30', 'ytiny30', 'xyhuge30', 'yoff30'))
         fam += vt
         k = rng.randrange(2, min(n - 2, 12) + 1)
         knees = sorted(rng.sample(range(1, n - 1), k))
         link = rng.choice(LINK)
-        t = rng.choice([0.01, 0.05, 0.1, 0.2, 0.3, 0.5])
+        t = rng.choice([0.01, 0.05, 0.1, 0.2, 0.3, 0.5, 1.0, 1.5, 2.0 ** -12])
+        if rng.random() < 0.3 and len(knees) >= 2:
+            # a threshold that IS one of the normalised gaps between consecutive knees (single-linkage tie; a near-tie for the others)
+            kx = pts[knees, 0]
+            gaps = [float((kx[i + 1] - kx[i]) / (kx[-1] - kx[0])) for i in range(len(kx) - 1)]
+            t = rng.choice(gaps)
         mode = rng.choice(MODES + ['corners'])
         one(ctx, pts, knees, link, t, mode, fam)
 
